@@ -1348,3 +1348,134 @@ fn c07_silent_goes_offline() {
     vassert!(sent + rc0 == limit + 1, "C08/retry-limit: an unanswered request is transmitted exactly 1+max_retry_limit times before the peripheral is declared offline");
     vassert!(m.state == PeripheralState::Offline && m.fcb == FrameCountBit::First, "C08/first-after-offline: probing restarts with the initial frame count bit");
 }
+
+// ==========================================================================================
+// C04 at the image sizes the step harnesses do not reach: process images of concrete large
+// length L with fully symbolic content, peripheral in the data-exchange states.
+// ==========================================================================================
+
+fn dx_large_transmit<const L: usize, const B: usize>() {
+    let mut pi_i = [0u8; 2];
+    let mut pi_q_store: [u8; L] = kani::any();
+    let pi_q_copy = pi_q_store;
+    let fdl = any_fdl();
+    let op = crate::dp::master::verif::any_operating();
+    let dp = crate::dp::master::verif::mk_dp_state(op);
+    let mut p = light_peripheral(&mut pi_i[..], &mut pi_q_store[..], None, None);
+    kani::assume(inv_dp(&p, &fdl));
+    kani::assume(in_dx(p.state));
+    kani::assume(p.retry_count <= fdl.parameters().max_retry_limit);
+    // a data exchange round: first transmission without a diagnostics request pending, or the
+    // retransmission of a data exchange request
+    kani::assume(if p.retry_count == 0 { !p.diag_needed } else { !p.diag_requested });
+    let pre_fcb = p.fcb;
+    let addr = p.address;
+    let hp = if kani::any() { HighPrioOnly::Yes } else { HighPrioOnly::No };
+    let now = crate::time::Instant::from_micros(kani::any::<u32>());
+    let mut buf = [0xAAu8; B];
+    let sent = match p.transmit_telegram(now, &dp, &fdl, TelegramTx::new(&mut buf), hp) {
+        Ok(r) => Some(r),
+        Err(_) => None,
+    };
+    vassert!(sent.is_some(), "C04/dx-request: a running peripheral is sent its Data_Exchange request");
+    let r = sent.unwrap();
+    let h = DataTelegramHeader { da: addr, sa: fdl.parameters().address, dsap: None, ssap: None, fc: FunctionCode::Request { fcb: pre_fcb, req: RequestType::SrdHigh } };
+    let mut expect = [0u8; B];
+    let elen = ref_encode(&h, L, |i| if op == crate::dp::OperatingState::Operate { pi_q_copy[i] } else { 0 }, &mut expect);
+    vassert!(r.bytes_sent() == elen && r.expects_reply() == Some(addr), "C04/dx-request: frame length equals the reference frame, a reply is expected");
+    let mut i = 0;
+    while i < elen {
+        vassert!(buf[i] == expect[i], "C04/dx-request: a Data_Exchange request is the reference frame carrying exactly the current output image (all zeros in Clear), on first transmission and on every retransmission");
+        i += 1;
+    }
+    let mut i = 0;
+    while i < L {
+        vassert!(p.pi_q()[i] == pi_q_copy[i], "C04/pi-q-readonly: transmitting never writes the output image");
+        i += 1;
+    }
+    kani::cover!(op == crate::dp::OperatingState::Operate && p.retry_count > 1, "cover: large output image retransmitted in Operate");
+    kani::cover!(op == crate::dp::OperatingState::Clear, "cover: large output image in Clear");
+}
+
+#[kani::proof]
+#[kani::unwind(258)]
+fn c04_dx_large_transmit_244() {
+    dx_large_transmit::<244, 256>();
+}
+
+#[kani::proof]
+#[kani::unwind(140)]
+fn c04_dx_large_transmit_129_t() {
+    dx_large_transmit::<129, 138>();
+}
+
+fn dx_large_receive<const L: usize, const P: usize>() {
+    let mut pi_i_store: [u8; L] = kani::any();
+    let pi_i_before = pi_i_store;
+    let mut pi_q_store = [0x5Au8; 2];
+    let fdl = any_fdl();
+    let dp = crate::dp::master::verif::mk_dp_state(crate::dp::master::verif::any_operating());
+    let mut p = light_peripheral(&mut pi_i_store[..], &mut pi_q_store[..], None, None);
+    kani::assume(inv_dp(&p, &fdl));
+    kani::assume(in_dx(p.state) && !p.diag_requested);
+    let addr = p.address;
+    // reply lengths around the configured length: L-1, L, L+1 (P = L+1 <= 246 fits a frame)
+    let pdu_store: [u8; P] = kani::any();
+    let plen: usize = kani::any();
+    kani::assume(plen <= P);
+    kani::assume(plen + 1 >= L);
+    let is_sc: bool = kani::any();
+    let rstatus = any_response_status();
+    let telegram = if is_sc {
+        Telegram::ShortConfirmation(ShortConfirmation)
+    } else {
+        Telegram::Data(DataTelegram {
+            h: DataTelegramHeader { da: fdl.parameters().address, sa: addr, dsap: None, ssap: None, fc: FunctionCode::Response { state: any_response_state(), status: rstatus } },
+            pdu: &pdu_store[..plen],
+        })
+    };
+    let now = crate::time::Instant::from_micros(kani::any::<u32>());
+    let event = p.receive_reply(now, &dp, &fdl, telegram);
+
+    let mut changed = false;
+    let mut equals_pdu = plen == L;
+    let mut i = 0;
+    while i < L {
+        if p.pi_i()[i] != pi_i_before[i] {
+            changed = true;
+        }
+        if i < plen && p.pi_i()[i] != pdu_store[i] {
+            equals_pdu = false;
+        }
+        i += 1;
+    }
+    vassert!(p.pi_i().len() == L, "C04/pi-i: the input image keeps its configured length");
+    let status_bad = matches!(rstatus, ResponseStatus::UserError | ResponseStatus::NoResources | ResponseStatus::SapNotEnabled | ResponseStatus::NoDataReady);
+    if changed {
+        vassert!(!is_sc && plen == L && !status_bad, "C04/pi-i-necessary: only a data reply of exactly the configured length without error status changes the input image");
+        vassert!(equals_pdu, "C04/pi-i-equals: after an update the input image equals the reply payload byte for byte");
+    }
+    if !is_sc && plen == L && matches!(rstatus, ResponseStatus::DataLow | ResponseStatus::DataHigh) {
+        vassert!(equals_pdu, "C04/pi-i-sufficient: a well-formed Data_Exchange reply of the configured length updates the input image");
+        vassert!(event == Some(PeripheralEvent::DataExchanged), "C04/event: DataExchanged is reported for an update");
+        kani::cover!(true, "cover: large input image updated");
+    }
+    if event == Some(PeripheralEvent::DataExchanged) {
+        vassert!(!is_sc && plen == L && !status_bad && equals_pdu, "C04/event: DataExchanged iff the input image was updated (or SC for an input-less peripheral)");
+    }
+    kani::cover!(!is_sc && plen == L + 1, "cover: over-long reply to a large input image");
+    kani::cover!(!is_sc && plen + 1 == L && changed == false, "cover: short reply to a large input image");
+    vassert!(p.pi_q()[0] == 0x5A && p.pi_q()[1] == 0x5A, "C04/pi-q-readonly: a reply never writes the output image");
+}
+
+#[kani::proof]
+#[kani::unwind(248)]
+fn c04_dx_large_receive_244() {
+    dx_large_receive::<244, 245>();
+}
+
+#[kani::proof]
+#[kani::unwind(133)]
+fn c04_dx_large_receive_129_t() {
+    dx_large_receive::<129, 130>();
+}
